@@ -83,6 +83,8 @@ def gworld (t : Table) (v : View) : World M GV where
     | .locOf rows, .idx l => if l.any (fun r => !rows.contains r) then throw "KeyError" else pure (.frame l)
     | .locOf rows, .list [.allRows, .columns cs] =>
       pure (.result ⟨rows, cs.filterMap fun c => (t.col? c).map fun k => ⟨k.name, k.dtype, locCells t.rows k.cells rows⟩⟩)
+    | .frame rows, .columns cs =>          -- `frame[columns]`: the same projection as `.loc[:, columns]`
+      pure (.result ⟨rows, cs.filterMap fun c => (t.col? c).map fun k => ⟨k.name, k.dtype, locCells t.rows k.cells rows⟩⟩)
     | _, _ => throw "TypeError"
   slice lo hi := match lo, hi with
     | .none, .none => .allRows
